@@ -187,7 +187,7 @@ pub fn run_batch(spec: &PropertySpec, seed: u64, thorough: bool, runs: u64, max_
     }));
     let workers: usize = std::env::var("VERIF_WORKERS").ok().and_then(|s| s.parse().ok()).unwrap_or(16);
     // hang monitor: (run index + 1, start in ms since t0) per worker; a run that takes more than
-    // HANG_SECS of real time never reached a kernel event (pure CPU loop) and is reported as a hang
+    // HANG_SECS of processor time never reached a kernel event (pure CPU loop) and is reported as a hang
     let slots: Arc<Vec<(AtomicU64, AtomicU64)>> = Arc::new((0..workers).map(|_| (AtomicU64::new(0), AtomicU64::new(0))).collect());
     let done = Arc::new(AtomicBool::new(false));
     {
@@ -195,14 +195,28 @@ pub fn run_batch(spec: &PropertySpec, seed: u64, thorough: bool, runs: u64, max_
         let done = done.clone();
         let id = spec.id;
         std::thread::spawn(move || {
+            // The limit is processor time, not wall time: on a machine that is shared with other work a run may sit
+            // for minutes without being scheduled.  Every half second the processor time the process has used since
+            // the last look is divided among the runs in progress; a run is a hang once its share exceeds the limit.
+            let mut prev_cpu = crate::clockseam::process_cpu_ns();
+            let mut seen_run: Vec<u64> = vec![0; slots.len()];
+            let mut share_ns: Vec<u64> = vec![0; slots.len()];
             while !done.load(Ordering::Relaxed) {
                 std::thread::sleep(std::time::Duration::from_millis(500));
-                let now = t0.elapsed().as_millis() as u64;
-                for (run, start) in slots.iter() {
+                let cpu = crate::clockseam::process_cpu_ns();
+                let delta = cpu.saturating_sub(prev_cpu);
+                prev_cpu = cpu;
+                let active = slots.iter().filter(|(run, _)| run.load(Ordering::Relaxed) != 0).count().max(1) as u64;
+                for (w, (run, _)) in slots.iter().enumerate() {
                     let r = run.load(Ordering::Relaxed);
-                    let st = start.load(Ordering::Relaxed);
-                    if r != 0 && now.saturating_sub(st) > HANG_SECS * 1000 && !done.load(Ordering::Relaxed) {
-                        let path = write_seed_replay(id, seed, r - 1, thorough, "hang:no-kernel-event", "run exceeded the real-time limit without finishing (non-termination on a finite input)");
+                    if r == 0 || r != seen_run[w] {
+                        seen_run[w] = r;
+                        share_ns[w] = 0;
+                        continue;
+                    }
+                    share_ns[w] += delta / active;
+                    if share_ns[w] > HANG_SECS * 1_000_000_000 && !done.load(Ordering::Relaxed) {
+                        let path = write_seed_replay(id, seed, r - 1, thorough, "hang:no-kernel-event", "run used more than its limit of processor time without finishing (non-termination on a finite input)");
                         println!("violation class=hang:no-kernel-event run_index={}", r - 1);
                         println!("VIOLATION property={} replay={}", id, path);
                         std::process::exit(1);
